@@ -8,6 +8,7 @@ import (
 
 	"github.com/tobgu/qframe"
 	"github.com/tobgu/qframe/config/csv"
+	"github.com/tobgu/qframe/config/groupby"
 	"github.com/tobgu/qframe/config/newqf"
 
 	"verif/harness/core"
@@ -80,6 +81,10 @@ func constructEnum(path string, declared, data []string) qframe.QFrame {
 		return qframe.New(map[string]interface{}{"e": ptrs}, newqf.Enums(enumOpt))
 	case "const":
 		return qframe.New(map[string]interface{}{"e": qframe.ConstString{Val: ptrs[0], Count: len(data)}}, newqf.Enums(enumOpt))
+	case "new-agg":
+		// the enum column as the key column of an aggregation result (built by Column.Subset)
+		q := qframe.New(map[string]interface{}{"e": ptrs, "n": qframe.ConstInt{Val: 1, Count: len(data)}}, newqf.Enums(enumOpt))
+		return q.GroupBy(groupby.Columns("e"), groupby.Null(true)).Aggregate(qframe.Aggregation{Fn: "sum", Column: "n"}).Select("e")
 	case "csv":
 		var sb strings.Builder
 		sb.WriteString("e,k\n")
@@ -145,6 +150,44 @@ func runEnumCase(c enumCase) *core.Failure {
 	}
 	if q.Err != nil {
 		return core.Failf("%s: unexpected construction error: %v", what, q.Err)
+	}
+	if c.Path == "new-agg" {
+		// one row per distinct value in unspecified order: take the observed cells as the data, after
+		// checking that they are exactly the distinct values
+		got := model.Observe(q)
+		col, _, ok := got.Col("e")
+		if !ok || col.Kind != model.Enum {
+			return core.Failf("%s: aggregation key column is not an enum column: %s", what, got)
+		}
+		seen := map[string]bool{}
+		var nd []string
+		for _, cell := range col.Cells {
+			k := nilMark
+			if !cell.Null {
+				k = cell.S
+			}
+			if seen[k] {
+				return core.Failf("%s: value %q occurs twice among the group keys: %s", what, k, got)
+			}
+			seen[k] = true
+			nd = append(nd, k)
+		}
+		for _, d := range data {
+			if !seen[d] {
+				return core.Failf("%s: value %q missing among the group keys: %s", what, d, got)
+			}
+		}
+		if len(nd) != len(distinct)+func() int {
+			for _, d := range data {
+				if d == nilMark {
+					return 1
+				}
+			}
+			return 0
+		}() {
+			return core.Failf("%s: group keys %q are not the distinct values", what, nd)
+		}
+		data = nd
 	}
 	// the column reproduces the data: never another string, never nil for a value, null stays null
 	want := model.Col{Name: "e", Kind: model.Enum, EnumVals: declared}
@@ -283,7 +326,7 @@ func c17Run(ctx *core.Ctx) {
 			ctx.Sample(c)
 		}
 	}
-	paths := []string{"new", "csv", "json"}
+	paths := []string{"new", "csv", "json", "new-agg"}
 	// small declared lists: all permutations of every non-empty subset of {a,b,c}, all data columns n <= 3
 	vals := []string{"a", "b", "c"}
 	var lists [][]string
@@ -368,7 +411,7 @@ func init() {
 	core.Register(&core.Check{
 		ID:    "C17",
 		Level: "model_checking",
-		Rule: "case = (declared value list or none, data column, construction path New+Enums / ReadCSV+Types,EnumValues / ReadJSON+Enums / ConstString). Small: every permutation of every non-empty subset of {a,b,c} (and no declaration) x every data column of 1-3 cells over {a,b,c,null,undeclared} x 3 paths (+ constant columns); " +
+		Rule: "case = (declared value list or none, data column, construction path New+Enums / ReadCSV+Types,EnumValues / ReadJSON+Enums / ConstString / New followed by GroupBy(e).Aggregate, i.e. the enum column as rebuilt for a key column). Small: every permutation of every non-empty subset of {a,b,c} (and no declaration) x every data column of 1-3 cells over {a,b,c,null,undeclared} x 3 paths (+ constant columns); " +
 			"large: declared lists of 63,64,65,127,128,129,191,192,193,254,255 (accepted) and 256,300 (rejected) values in reverse-alphabetical declared order with data on ranks 0,1,62-65,126-129,190-193,253,254 and nulls; derived enums of cardinality 1,2,3,64,65,254,255 (accepted), 256,257,300 (clean Err). " +
 			"Per accepted case: cells reproduce the data (never another string, null stays null); Filter with <,<=,>,>=,=,!= (and Inverse) against every declared constant / boundary rank follows the declared rank; an undeclared constant is an error; in/like/ilike select exactly the named boundary ranks; isnull/isnotnull; Sort in 4 flag combinations is ordered by declared rank. All cases non-trivial; distinct by content.",
 		Assumptions: []string{
